@@ -98,9 +98,9 @@ def race(op, tries=3):
     two threads on the real build after which the public queries disagree. A disagreement reproduces the counterexample; none found = not reproduced."""
     first = RACE_MODES.get(op, 'exit')
     runs = []
-    for mode in [first] + [m for m in ('exit', 'leave_join', 'join_leave') if m != first]:
+    for mode in [first] + [m for m in ('exit', 'leave_join', 'join_leave', 'leave_rejoin') if m != first]:
         for t in range(tries):
-            out, _, rc, err = native.run('pg_race', mode=mode, k=64 if mode == 'exit' else 16, iters=40 if mode == 'exit' else 60, timeout=120)
+            out, _, rc, err = native.run('pg_race', mode=mode, k=64 if mode in ('exit', 'leave_rejoin') else 16, iters=40 if mode == 'exit' else (25 if mode == 'leave_rejoin' else 60), timeout=180)
             if rc != 0:
                 raise RuntimeError('native pg race failed: ' + err[-300:])
             runs.append({'mode': mode, 'disagreements': out.get('disagreements'), 'detail': out.get('detail', '')})
